@@ -54,6 +54,7 @@ ENTITIES = {
     "ITEM": ([], [("iname", STR, False, False)]),
     "NODE": ([], [("nlabel", STR, False, False), ("next", ref("NODE"), True, False),
                   ("others", agg(ref("NODE")), False, False)]),
+    "MESH": ([], [("rows", agg(agg(ref("NODE"))), False, False)]),
     "OPTS": ([], [("oe", COLOR, True, False), ("ob", BOOL, True, False), ("ol", LOGICAL, True, False),
                   ("orl", REAL, True, False), ("os", STR, True, False), ("obin", BIN, True, False),
                   ("onum", NUMBER, True, False), ("osel", NUM_OR_LABEL, True, False),
